@@ -189,7 +189,7 @@ def main(tier, replay=None):
         chk.oblige("build:delta-with-hooks", False, out[-2000:])
         return chk.finish()
     vlib.build_native()
-    tinfo = vlib.standard_proof_obligations(chk, "PropC13", gen_names=["features"])
+    tinfo = vlib.standard_proof_obligations(chk, "PropC13", gen_names=["features", "sbs"])
     ok, out = vlib.build_vmodel()
     if not ok:
         chk.oblige("build:vmodel", False, out[-2000:])
@@ -356,6 +356,32 @@ def main(tier, replay=None):
                 chk.violation({"property": PID, "shape": "top-source", "case": c,
                                "why": f"--{c['option']} {c['value']!r} given {'on the command line' if c['placement'] == 'cli' else 'in the [delta] section'} "
                                       f"is reported as {v0!r}, but as {v1!r} once {c['features']} is enabled via {c['route']}"})
+    # ---- correspondence of the side-by-side adjustment (SbsStyles.v over GenSbs.v): the value --show-config reports for
+    #      minus-style / minus-emph-style with side-by-side on = the model's adjust of the value reported with it off
+    smism = ns = 0
+    if not replay:
+        def show(opt_args):
+            rc, out, err = vlib.run_delta(["--no-gitconfig", "--show-config"] + opt_args)
+            txt = term.strip(out)
+            return {o: (re.search(r"^\s*" + o + r"\s*= ?(.*)$", txt, re.M) or [None, None])[1] for o in ("minus-style", "minus-emph-style")}
+        for vs in ("", "normal 88", "bold red", "normal", "syntax 17"):
+            for ve in ("", "normal 89", "ul 12 52", "normal"):
+                for theme in ([], ["--light"]):
+                    given = theme + (["--minus-style", vs] if vs else []) + (["--minus-emph-style", ve] if ve else [])
+                    off, on = show(given), show(given + ["--side-by-side"])
+                    for o in ("minus-style", "minus-emph-style"):
+                        ns += 1
+                        if off[o] is None or on[o] is None:
+                            smism += 1
+                            continue
+                        unq = lambda x: x[1:-1] if len(x) >= 2 and x[0] == x[-1] == "'" else x
+                        m = vm.ask("sbs_adjust", "1", "1" if vs else "0", "1" if ve else "0", o, vlib.hexs(unq(off[o])))
+                        want = bytes.fromhex(m.split("\t")[1]).decode() if m.startswith("OK") else None
+                        if want != unq(on[o]):
+                            smism += 1
+                            if smism <= 3:
+                                vlib.log(f"[C13] side-by-side adjustment: {given} {o}: off {off[o]!r} on {on[o]!r} model {want!r}")
+    chk.oblige("correspondence:side-by-side-style-adjustment", smism == 0, f"{smism} of {ns} reported values differ from the model's adjustment")
     chk.oblige("correspondence:show-config", mism == 0, f"{mism} of {len(cases)} placements resolve differently in model and implementation")
     chk.extra["traces_validated_against_impl"] = len(cases) - mism
     chk.extra["translator"] = tinfo.get("features", {})
